@@ -73,13 +73,14 @@ fn write_crate(name: &str, modules: &BTreeMap<usize, String>, n_bins: usize) -> 
 
 /// Runs cargo; returns (success, errors attributed to module index, unattributed error text).
 fn cargo_build(name: &str) -> (bool, BTreeMap<usize, String>, String) {
-    let out = cargo_rd(&[
-        "build",
-        "-p",
-        &format!("gen_{}", name),
-        "--message-format=json",
-        "--keep-going",
-    ])
+    // bounded: a generated crate that rustc cannot finish in 40 minutes is an infrastructure
+    // problem of this run, never a verdict
+    let mut cmd = std::process::Command::new("timeout");
+    cmd.current_dir(RD)
+        .args(["2400", "cargo", "build", "-p", &format!("gen_{}", name), "--message-format=json", "--keep-going"])
+        .env("CARGO_NET_OFFLINE", "true")
+        .env("CARGO_TERM_COLOR", "never");
+    let out = cmd
     .stdout(Stdio::piped())
     .stderr(Stdio::piped())
     .output()
@@ -137,6 +138,9 @@ fn cargo_build(name: &str) -> (bool, BTreeMap<usize, String>, String) {
             other.push_str(&text);
             other.push('\n');
         }
+    }
+    if out.status.code() == Some(124) {
+        infra(&format!("rustc did not finish building the generated crate {} within 40 minutes", name));
     }
     if !out.status.success() && per_mod.is_empty() && other.is_empty() {
         other = String::from_utf8_lossy(&out.stderr).to_string();
